@@ -1,7 +1,7 @@
 (* Run.v — command dispatcher: one S-expression in, one S-expression out.
    This is what the OCaml driver calls; each command evaluates model functions on a case that the
    Python harness also runs on the rebuilt implementation. *)
-From OptreeModel Require Export Wire Flatten Unflatten.
+From OptreeModel Require Export Wire Flatten Unflatten Spec.
 
 Definition bad : sexp := SL [SI 2].   (* undecodable input: a harness error, never a verdict *)
 
@@ -17,12 +17,77 @@ Definition cmd_traverse (c : cfg) (o : obj) : sexp :=
        | Err _ => SL []
        end ].
 
+Definition enc_sspec (s : sspec) : sexp := enc_spec (spec_of s).
+Definition enc_tentry (t : tentry) : sexp :=
+  match t with TE e ec (a, b) k => SL [enc_key e; SI ec; SI a; SI b; SI (kind_code k)] end.
+
+Fixpoint z_range (lo : Z) (n : nat) : list Z :=
+  match n with O => [] | S n' => lo :: z_range (lo + 1) n' end.
+
+(* cmd 2: what the treespec of one tree says about itself *)
+Definition cmd_inspect (c : cfg) (o : obj) : sexp :=
+  match flatten c o with
+  | Err e => enc_err e
+  | Ok (ls, sp) =>
+    match sspec_of sp with
+    | None => SL [SI 4]    (* flatten produced an array that does not decode: model bug *)
+    | Some s =>
+      let t := stree_of s in
+      let n := st_node t in
+      let idx := z_range (- Z.of_nat (narity n) - 1) (2 * narity n + 2) in
+      SL [ SL [SI 0; SL [enc_nat (nleaves n); enc_nat (nnodes n); enc_nat (narity n);
+                         SI (kind_code (nkind n)); enc_bool (is_leaf_node n);
+                         enc_bool (st_is_one_level t);
+                         let '(a, b) := node_type n in SL [SI a; SI b]]];
+           SL (map enc_path (st_paths t));
+           SL (map (fun a => SL (map enc_tentry a)) (st_accessors t));
+           SL (map enc_sspec (ss_children s));
+           SL (map (fun i => enc_res enc_sspec (ss_child s i)) idx);
+           enc_keys (node_entries n);
+           SL (map (fun i => enc_res enc_key (st_entry t i)) idx);
+           enc_sspec (ss_one_level s);
+           enc_bool (wf_stree t) ]
+    end
+  end.
+
+(* cmd 3: relations between the treespecs of two trees, and flatten_up_to of the first on the second *)
+Definition cmd_pair (c1 : cfg) (o1 : obj) (c2 : cfg) (o2 : obj) : sexp :=
+  match flatten c1 o1, flatten c2 o2 with
+  | Ok (_, sp1), Ok (_, sp2) =>
+    match sspec_of sp1, sspec_of sp2 with
+    | Some s1, Some s2 =>
+      SL [ SI 0;
+           enc_bool (spec_eqb sp1 sp2); enc_bool (spec_eqb sp2 sp1);
+           (* if the model's hash sequences agree the implementation's hashes must agree *)
+           enc_bool (if spec_eqb sp1 sp2 then true else false);
+           enc_bool (ss_is_prefix s1 s2 false); enc_bool (ss_is_prefix s1 s2 true);
+           enc_bool (ss_is_prefix s2 s1 false); enc_bool (ss_is_prefix s2 s1 true);
+           enc_res enc_objs (ss_flatten_up_to (c_reg c1) s1 o2);
+           enc_res enc_sspec (ss_broadcast s1 s2);
+           enc_res enc_sspec (ss_broadcast s2 s1);
+           enc_res enc_sspec (ss_compose s1 s2);
+           enc_res enc_sspec (ss_transform_leaves s1 (Some s2)) ]
+    | _, _ => SL [SI 4]
+    end
+  | _, _ => SL [SI 5]     (* one of the trees does not flatten: not a case for this command *)
+  end.
+
 Definition run (s : sexp) : sexp :=
   match s with
   | SL [SI 1; c; o] =>
     match dec_cfg c, dec_obj o with
     | Some c', Some o' => cmd_traverse c' o'
     | _, _ => bad
+    end
+  | SL [SI 2; c; o] =>
+    match dec_cfg c, dec_obj o with
+    | Some c', Some o' => cmd_inspect c' o'
+    | _, _ => bad
+    end
+  | SL [SI 3; c1; o1; c2; o2] =>
+    match dec_cfg c1, dec_obj o1, dec_cfg c2, dec_obj o2 with
+    | Some c1', Some o1', Some c2', Some o2' => cmd_pair c1' o1' c2' o2'
+    | _, _, _, _ => bad
     end
   | _ => bad
   end.
